@@ -66,6 +66,10 @@ func (f *Block) Call(s *slip.Scope, args slip.List, depth int) (result slip.Obje
 			}
 			return
 		}
+		if _, ok := result.(slip.NonLocalExit); ok {
+			// A go to a tag outside of the block.
+			return
+		}
 	}
 	return
 }
